@@ -902,7 +902,11 @@ func dsTxHistory(c *CaseCtx, kind string, class string) {
 			run.CheckStruct("after-commit")
 		}
 		if r.Intn(20) == 0 {
-			if !run.Reopen() {
+			if c.Case%8 == 5 {
+				if !run.ReopenResized(r, 128, 700, g) {
+					return
+				}
+			} else if !run.Reopen() {
 				return
 			}
 			run.CheckObs("after-reopen")
